@@ -56,7 +56,7 @@ func (s afShape) content() int {
 func afShapes(thorough bool) []afShape {
 	lens := []int{0, 1, 4}
 	if thorough {
-		lens = []int{0, 1, 2, 4, 9}
+		lens = []int{0, 1, 4, 9}
 	}
 	seen := map[afShape]bool{}
 	var out []afShape
@@ -73,7 +73,7 @@ func afShapes(thorough bool) []afShape {
 				base := afShape{0, P, n, m}.content()
 				Ls := []int{base, base + 1, base + 6, 183}
 				if thorough {
-					Ls = append(Ls, base+2, base+5, base+7, base+12, base+13, 60, 100, 181, 182)
+					Ls = append(Ls, base+2, base+7, base+13, 100, 182)
 				}
 				for _, L := range Ls {
 					s := afShape{L, P, n, m}
@@ -730,7 +730,7 @@ func (c *Checker) runAFCopies(shapes []afShape, thorough bool) {
 	}
 	a := &stepAgg{}
 	for i, src := range shapes {
-		if !thorough && i%3 != 0 {
+		if i%3 != 0 {
 			continue
 		}
 		for _, t := range targets {
@@ -809,7 +809,7 @@ func runC03(c *Checker) {
 	c.runAFSteps(thorough)
 	var sub []afShape
 	for i, s := range shapes {
-		if thorough || i%4 == 0 || s.n > 50 || s.m > 50 {
+		if thorough && i%3 == 0 || i%4 == 0 || s.n > 50 || s.m > 50 {
 			sub = append(sub, s)
 		}
 	}
